@@ -1,1 +1,72 @@
-From DV Require Import Prelude.Base Model.Node.
+(* C17 — retransmission detection window
+   Statements copied from the proof files; each is closed by `exact`. *)
+From DV Require Prelude.Base Model.Ids Proofs.IdsP Model.Node Proofs.NodeB.
+From Coq Require String List Lia Bool Arith ZArith.
+
+Module FromNodeB.
+Import DV.Prelude.Base DV.Model.Node DV.Proofs.NodeB.
+Import Coq.Strings.String.
+
+(* C17: bounded_append keeps the last k elements of l ++ [x] *)
+Theorem bounded_append_spec k l x :
+  bounded_append k l x = List.skipn (List.length (l ++ [x]) - k) (l ++ [x])
+  /\ (List.length (bounded_append k l x) <= k)%nat
+  /\ List.length (bounded_append k l x) = Nat.min k (S (List.length l))
+  /\ (exists dropped, (l ++ [x])%list = (dropped ++ bounded_append k l x)%list)
+  /\ ((List.length l < k)%nat -> bounded_append k l x = (l ++ [x])%list).
+Proof. exact (@NodeB.bounded_append_spec k l x). Qed.
+
+(* C17: recording an answer changes only the origin's window, to bounded_append of the old one *)
+Theorem C17_window k sa o e :
+  sa_get (sa_append k sa o e) o = bounded_append k (sa_get sa o) e
+  /\ forall o', o' <> o -> sa_get (sa_append k sa o e) o' = sa_get sa o'.
+Proof. exact (@NodeB.C17_window k sa o e). Qed.
+
+(* C17: under distinct origins, membership in the table is membership in the origin's window *)
+Theorem C17_sa_mem_get sa o e :
+  List.NoDup (List.map fst sa) -> (sa_mem sa o e = true <-> List.In e (sa_get sa o)).
+Proof. exact (@NodeB.C17_sa_mem_get sa o e). Qed.
+
+(* C17: recording an answer keeps the origins of the table distinct *)
+Theorem C17_sa_nodup k sa o e :
+  List.NoDup (List.map fst sa) -> List.NoDup (List.map fst (sa_append k sa o e)).
+Proof. exact (@NodeB.C17_sa_nodup k sa o e). Qed.
+
+(* C17: a request that passes validation is rejected as a duplicate (5012, nothing delivered) when it
+   carries the T flag and its end-to-end id is in its origin's window; otherwise the node does exactly
+   what it does for the same request without the T flag (same next state, same outputs up to the flag
+   of the message handed to the application): the T flag alone never causes a rejection *)
+Theorem C17_dup_iff n cid m o :
+  m_req m = true -> m_origin m = Present o ->
+  g_validate (n_cfg n) = false \/ m_missing m = [] ->
+  (m_t m = true /\ sa_mem (n_sent_answers n) o (m_e2e m) = true ->
+     snd (receive_message n cid m) = [OQueue cid (answer_of m (Some 5012) [])]
+     /\ forall i m', ~ List.In (ODeliver i m') (snd (receive_message n cid m)))
+  /\ (m_t m = false \/ sa_mem (n_sent_answers n) o (m_e2e m) = false ->
+     receive_message n cid (clear_t m) =
+       (fst (receive_message n cid m), List.map out_clear_t (snd (receive_message n cid m)))).
+Proof. exact (@NodeB.C17_dup_iff n cid m o). Qed.
+
+(* C17: sending the answer to a recorded request appends its end-to-end id to the origin's window
+   (and to no other), and forgets the record (and no other); for an unrecorded pair nothing changes *)
+Theorem C17_record n hbh e2e :
+  (forall o, ow_get (n_origin_waiting n) hbh e2e = Some o ->
+     let n' := record_answer n hbh e2e in
+     sa_get (n_sent_answers n') o = bounded_append (g_rsize (n_cfg n)) (sa_get (n_sent_answers n) o) e2e
+     /\ (forall o', o' <> o -> sa_get (n_sent_answers n') o' = sa_get (n_sent_answers n) o')
+     /\ ow_get (n_origin_waiting n') hbh e2e = None
+     /\ (forall o', ~ List.In (hbh, e2e, o') (n_origin_waiting n'))
+     /\ (forall h e, (h =? hbh) && (e =? e2e) = false ->
+           ow_get (n_origin_waiting n') h e = ow_get (n_origin_waiting n) h e)
+     /\ n_cfg n' = n_cfg n /\ n_conns n' = n_conns n /\ n_peers n' = n_peers n /\ n_apps n' = n_apps n
+     /\ n_app_waiting n' = n_app_waiting n /\ n_peer_waiting n' = n_peer_waiting n)
+  /\ (ow_get (n_origin_waiting n) hbh e2e = None -> record_answer n hbh e2e = n).
+Proof. exact (@NodeB.C17_record n hbh e2e). Qed.
+End FromNodeB.
+
+Print Assumptions FromNodeB.bounded_append_spec.
+Print Assumptions FromNodeB.C17_window.
+Print Assumptions FromNodeB.C17_sa_mem_get.
+Print Assumptions FromNodeB.C17_sa_nodup.
+Print Assumptions FromNodeB.C17_dup_iff.
+Print Assumptions FromNodeB.C17_record.
